@@ -8,6 +8,8 @@
 //	dial  through ParseArgs + Dial on a scripted conn: genuine / forged / modified exchanges,
 //	      a client configured with another node ID or public key
 //	srv   reference client <-> real server (WrapConn): genuine, and with a wrong identity
+//	wrongid a real client configured (ParseArgs, both formats) with EVERY single-bit change of the
+//	      bridge line (160 node-id + 256 public-key bits) dials the genuine real server: must fail
 //	fresh 8 WrapConn calls overlapping on one factory + 8 sequential ones: pairwise distinct Y',
 //	      session keys, and per-connection random draws as the model's; 8 clients: distinct X'
 //	conc  16 (quick: 3 batches; search mode: up to 40) / 32 (thorough) genuine client-server pairs of
@@ -22,11 +24,11 @@ package main
 
 import (
 	"bytes"
-	"runtime"
 	"encoding/json"
 	"fmt"
 	"io"
 	"net"
+	"runtime"
 	"strconv"
 	"strings"
 	"sync"
@@ -47,7 +49,7 @@ type ccase struct {
 	Format   string `json:"format"`
 	Chunk    string `json:"chunk"`
 	HourOff  int    `json:"hour_off,omitempty"` // clock of the REFERENCE peer relative to the real one (genuine kinds): -1, 0, +1
-	Sub      string `json:"sub,omitempty"` // the sub-check that failed (fn family), for the replay reader
+	Sub      string `json:"sub,omitempty"`      // the sub-check that failed (fn family), for the replay reader
 }
 
 func (c ccase) key() string { b, _ := json.Marshal(c); return string(b) }
@@ -402,6 +404,46 @@ func runFn(c ccase) (retry bool) {
 		cl := vlib.Pick(rng, o4h.ChunkClasses)
 		fnCheck(c, h, shadow, "forge-"+kind+"-"+cl, buf, o4h.Chunks(rng, cl, len(buf), []int{32, 64, 96, len(buf) - 32, len(buf) - 16}), true, desc)
 		r.Count("forgery", kind)
+	}
+
+	// 4a. every single-bit change of the configured identity, function level: the genuine response
+	//     must be refused (S oracle); a sample that always includes public-key bits 0, 7, 254, 255 and
+	//     node-id bits 0, 159 is also compared with the model
+	always := map[int]bool{160: true, 167: true, 160 + 254: true, 160 + 255: true, 0: true, 159: true}
+	for i := 0; i < 6; i++ {
+		always[rng.Intn(416)] = true
+	}
+	for bit := 0; bit < 416; bit++ {
+		cfg, what := certBit(id, bit)
+		n2, _ := ntor.NewNodeID(cfg.NodeID)
+		p2, _ := ntor.NewPublicKey(cfg.Pub)
+		tape.Steer = append([]byte(nil), tape.Since(m)...)
+		h2 := obfs4.VerifRefNewClientHS(n2, p2, kp)
+		if _, err := h2.Generate(); err != nil {
+			panic(err)
+		}
+		tape.Steer = nil
+		if h2.EpochHour() != strconv.FormatInt(hour0, 10) {
+			return true
+		}
+		if always[bit] {
+			sh2 := ref.Fresh("c")
+			if rep := ref.CliNew(sh2, cfg.NodeID, cfg.Pub, ltape, hour0); rep.Class == "ok" {
+				fnCheck(c, h2, sh2, fmt.Sprintf("wrongid-bit%d-genuine-response", bit), full, nil, true, "client configured with a bridge line differing in "+what+" receives the genuine response")
+				buf := ref.ForgeBlob(cfg.NodeID, cfg.Pub, R[0:32], R[32:64], R[64:n-32], hour0)
+				fnCheck(c, h2, sh2, fmt.Sprintf("wrongid-bit%d-rewrapped", bit), buf, nil, true, "genuine Y'|AUTH of (B,ID) under the mark+MAC of a configuration differing in "+what)
+			}
+			ref.Drop(sh2)
+			continue
+		}
+		g, seedOnErr := goParse(h2, [][]byte{full})
+		r.Case(c.key()+"|wrongid-bit"+strconv.Itoa(bit), true)
+		r.Count("fn_outcome", g.Classes[0])
+		if g.Classes[0] == "ok" || seedOnErr {
+			c2 := c
+			c2.Sub = fmt.Sprintf("wrongid-bit%d", bit)
+			violate("client-accepts-modified-response", "impl-oracle", "a client configured with a bridge line differing in "+what+" accepts the genuine server's response: "+g.String(), c2)
+		}
 	}
 
 	// 4. a client configured with another node ID / public key gets the genuine response
@@ -803,7 +845,7 @@ func runFresh(c ccase) (retry bool) {
 	sf := id.ServerFactory()
 	const k = 8
 	type sconn struct {
-		ep    *o4h.Endpoint
+		ep     *o4h.Endpoint
 		drawn  []byte
 		label  string
 		tapeOK bool
@@ -970,6 +1012,99 @@ func runFresh(c ccase) (retry bool) {
 		}
 	}
 	r.Case(c.key()+"|client", len(xs) == k)
+	return false
+}
+
+// ---------------------------------------------------------------- wrongid: every single-bit change of the bridge line
+
+// certBit flips bit `bit` of NODEID (0..159) | PUBLIC KEY (160..415) of the identity.
+func certBit(id o4h.Identity, bit int) (o4h.Identity, string) {
+	cfg := id
+	if bit < 160 {
+		cfg.NodeID = flipBit(id.NodeID, bit)
+		return cfg, fmt.Sprintf("node-id bit %d (byte %d, mask %#02x)", bit, bit/8, 1<<uint(bit%8))
+	}
+	b := bit - 160
+	cfg.Pub = flipBit(id.Pub, b)
+	return cfg, fmt.Sprintf("public-key bit %d (byte %d, mask %#02x)", b, b/8, 1<<uint(b%8))
+}
+
+// runWrongID: a real client configured — through ParseArgs, in both bridge-line formats — with a
+// bridge line that differs from the genuine one in exactly ONE bit (all 160 node-id bits, all 256
+// public-key bits, the unused bit 255 included) dials the GENUINE real server.  The property: the
+// handshake fails, whatever the bit.  (Model: the MAC key and the ntor transcript use the
+// configured bytes as they are — C02.wrong_identity_one_bit; the genuine server cannot verify
+// MAC_C and stays silent.)
+func runWrongID(c ccase) (retry bool) {
+	rng := vlib.NewRng(c.CaseSeed)
+	o4h.InstallTape(c.CaseSeed)
+	id := o4h.NewIdentity(rng, 0)
+	sf := id.ServerFactory()
+	cf := o4h.ClientFactory()
+	for bit := 0; bit < 416; bit++ {
+		for _, format := range []string{"cert", "legacy"} {
+			cfg, what := certBit(id, bit)
+			r.Case(fmt.Sprintf("%s|%d|%s", c.key(), bit, format), true)
+			if bit < 160 {
+				r.Count("wrongid_bits", "node-id/"+format)
+			} else {
+				r.Count("wrongid_bits", "public-key/"+format)
+			}
+			args, err := cf.ParseArgs(cfg.ClientArgs(format, 0))
+			if err != nil {
+				r.Count("wrongid_outcome", "parseargs-error")
+				continue // refusing the bridge line is a failure to connect, too
+			}
+			cep, fin := o4h.StartDial(cf, args)
+			if fin {
+				if conn, derr := cep.Result(); derr == nil && conn != nil {
+					violate("dial-succeeds-with-wrong-identity", "impl-oracle", "Dial returned a connection without a response: "+what, c)
+				}
+				continue
+			}
+			blob := cep.Conn.TakeWritten()
+			sep, sfin := o4h.StartWrap(sf)
+			srvDone := sfin
+			if !sfin {
+				sep.Conn.Feed(blob)
+				srvDone = sep.Conn.Wait(sep.Op)
+			}
+			resp := sep.Conn.TakeWritten()
+			if len(resp) > 0 {
+				cep.Conn.Feed(resp)
+			} else {
+				cep.Conn.FeedEOF()
+			}
+			if !cep.Conn.Wait(cep.Op) {
+				cep.Conn.FeedEOF()
+				cep.Conn.Wait(cep.Op)
+			}
+			conn, derr := cep.Result()
+			r.Count("wrongid_outcome", o4h.ErrClass(derr))
+			if derr == nil && conn != nil {
+				// does it even relay data?
+				relayed := "no data exchanged"
+				if sconn, serr := sep.Result(); srvDone && serr == nil && sconn != nil {
+					p := rng.Bytes(200)
+					w := o4h.WriteOn(cep.Conn, conn, p, 30*time.Second)
+					sep.Conn.Feed(w.Wire())
+					got, _, _ := o4h.ReadN(sep.Conn, sconn, len(p))
+					relayed = fmt.Sprintf("%d of %d payload bytes relayed to the server", len(got), len(p))
+				}
+				violate("dial-succeeds-with-wrong-identity", "impl-oracle",
+					fmt.Sprintf("a client whose bridge line (%s format) differs from the genuine one in %s completed the handshake with the genuine server (%d-byte response; %s)", format, what, len(resp), relayed), c)
+			} else if len(resp) > 0 {
+				violate("real-server-answers-wrong-identity-client", "impl-oracle",
+					fmt.Sprintf("the genuine server answered (%d bytes) a client configured with a bridge line differing in %s", len(resp), what), c)
+			}
+			if !srvDone {
+				sep.Conn.FeedErr(vlib.TimeoutError{})
+				sep.Conn.Wait(sep.Op)
+			}
+			cep.Conn.Close()
+			sep.Conn.Close()
+		}
+	}
 	return false
 }
 
@@ -1155,6 +1290,8 @@ func run(c ccase) {
 			retry = runSrv(c)
 		case "fresh":
 			retry = runFresh(c)
+		case "wrongid":
+			retry = runWrongID(c)
 		case "conc":
 			runConc(c)
 		}
@@ -1230,6 +1367,9 @@ func main() {
 			sc.HourOff = []int{-1, 0, 1}[(i/2)%3] // the reference client's clock
 		}
 		run(sc)
+	}
+	for i, n := 0, r.Scale(1, 12); i < n; i++ {
+		run(ccase{Family: "wrongid", Kind: "all-416-cert-bits-x-2-formats", CaseSeed: rng.U64(), Format: "both", Chunk: "whole"})
 	}
 	for i, n := 0, r.Scale(3, 40); i < n; i++ {
 		run(ccase{Family: "fresh", Kind: "8-overlapping+8-sequential", CaseSeed: rng.U64(), Format: "both", Chunk: "whole"})
